@@ -608,7 +608,7 @@ theorem decodeCore_ok (s : State) (hs : StoreOK s) (c : Cur) : OutSat (decodeCor
   | none => trivial
   | some hdr =>
     simp only
-    have hq : hdr.quantizer < 32 := hx.2 hdr rfl
+    have hq : hdr.quantizer < 32 := (hx.2 hdr rfl).1
     refine OutSat.bind (Q1 := fun _ => True) ?_ ?_
     · repeat' split
       all_goals trivial
@@ -703,5 +703,30 @@ theorem run_not_crashed : ∀ (ops : List System.Op) (i : System.Inst), StoreOK 
     rcases hr with h | h
     · rw [h]; exact step_not_crashed i hi op
     · exact ih _ (step_storeOK i hi op) r h
+
+
+/-- a decoded picture's header carries a temporal reference of at most ten bits -/
+theorem decodeCore_tr (s : State) (c : Cur) (hdr : PicHdr) (pic : DecPic) (c' : Cur)
+    (h : decodeCore s c = .ok (hdr, pic, c')) : hdr.tr < 1024 := by
+  unfold decodeCore at h
+  have h1 := OutSat.of_sat (decodePicture_sat s.opts (s.getLast.map (·.hdr))) c
+  cases hp : Header.decodePicture s.opts (s.getLast.map (·.hdr)) c with
+  | ok r =>
+    obtain ⟨ohdr, c1⟩ := r
+    rw [hp] at h h1
+    simp only [Out.bind_ok] at h
+    cases ohdr with
+    | none => simp at h
+    | some hd =>
+      have hb := (h1.2 hd rfl).2
+      simp only [bind, Out.bind] at h
+      repeat' split at h
+      all_goals (try (simp at h; done))
+      all_goals
+        simp only [pure, Out.ok.injEq, Prod.mk.injEq] at h
+        rw [← h.1]; exact hb
+  | err e => rw [hp] at h; simp at h
+  | panic m => rw [hp] at h; simp at h
+  | fuel => rw [hp] at h; simp at h
 
 end H263V.Lemmas.DecodeTotal
